@@ -252,8 +252,11 @@ def expectation(v, flavour, op):
         for y in t:
             o |= owned(v, y)
         exp, sps = with_artefacts(v, o)
-        nested = any(y in owned(v, z) for y in t for z in t if y != z)
-        return (not multi_peer(o)) and not nested, exp, sps, 'nested marks' if nested else ''
+        # overlapping marks: a marked element is owned by, or is a peering artefact of, another marked element.  prune's
+        # removal steps are not idempotent (the second one addresses an element that is already gone and raises):
+        # such a call is not an 'applicable removal'
+        nested = any(y in with_artefacts(v, owned(v, z))[0] for y in t for z in t if y != z)
+        return (not multi_peer(o)) and not nested, exp, sps, 'overlapping marks' if nested else ''
     return False, None, {}, 'unknown op'
 
 
